@@ -197,7 +197,6 @@ def _p_lazy_self():
 
 register('C10', Probe('two instances referencing each other', _p_lazy_cycle, masks=dict(pop=['ref_cycle'], schema=['required_entity_ref'])))
 register('C10', Probe('instance referencing itself', _p_lazy_self, masks=dict(pop=['ref_cycle'])))
-_m('C10')['schema'].add('inverse')   # inverse attributes under the lazy loader are C11's subject
 
 
 # ------------------------------------------------------------------------------------------------ C08 probes (fixed graphs)
